@@ -335,13 +335,28 @@ impl Prop for C12 {
         }
         let (ih, iw) = (r1 - r0, c1 - c0);
         let h6 = ih / 6 * 6;
-        let base = Image::from(SurfaceOwned::new_with(
-            Size {
-                height: case.h,
-                width: case.w,
-            },
-            |pos| rgba(case.px[pos.row * case.w + pos.col]),
-        ));
+        // one case in four holds the pixels column-major and hands the handler the transposed view
+        // of them (an image whose rows are not contiguous in memory); the picture is the same
+        let strided = (case.w + case.h + case.px.len()) % 4 == 3;
+        let base = if strided {
+            let columns = SurfaceOwned::new_with(
+                Size {
+                    height: case.w,
+                    width: case.h,
+                },
+                |pos| rgba(case.px[pos.col * case.w + pos.row]),
+            );
+            ctx.feat("image.column-major-storage");
+            Image::new(columns.transpose())
+        } else {
+            Image::from(SurfaceOwned::new_with(
+                Size {
+                    height: case.h,
+                    width: case.w,
+                },
+                |pos| rgba(case.px[pos.row * case.w + pos.col]),
+            ))
+        };
         let img = match case.crop {
             Some(_) => base.crop(r0..r1, c0..c1),
             None => base.clone(),
@@ -522,7 +537,15 @@ impl Prop for C12 {
             ctx.feat_if(!not_sampled, "class.subsampled");
         }
 
-        // ---- drawing the same image again emits identical bytes
+        // ---- drawing the same image again emits identical bytes (also after it was erased)
+        if (case.w + case.px.len()) % 2 == 1 {
+            let mut erased: Vec<u8> = Vec::new();
+            let pos = if case.h % 2 == 0 { Some(Position::new(3, 5)) } else { None };
+            handler
+                .erase(&mut erased, &img, pos)
+                .map_err(|e| Fail::new("erase:error", format!("erase returned {e}")))?;
+            ctx.feat("redraw.after-erase");
+        }
         let mut again: Vec<u8> = Vec::new();
         handler
             .draw(&mut again, &img, Position::new(3, 5))
